@@ -1282,6 +1282,33 @@ func (e *Engine) recordEmitted(tx *Tx, rep *Report) {
 		byModule := bytes.Equal(m.Sender, modulePadded)
 		em := e.M.Emitted[m.Nonce]
 		isNew := i < len(rep.Exp) && rep.Exp[min(i, len(rep.Exp)-1)].RespNonce != nil
+		if !isNew && i < len(rep.SentIdx) && rep.SentIdx[i] >= 0 && rep.SentIdx[i] < len(tx.Msgs) {
+			// the output of a replacement belongs to the lineage of a message this chain emitted only if the replaced
+			// original is part of that lineage (an attested message crafted elsewhere may carry the same nonce)
+			var orig []byte
+			switch x := tx.Msgs[rep.SentIdx[i]].(type) {
+			case *ct.MsgReplaceMessage:
+				orig = x.OriginalMessage
+			case *ct.MsgReplaceDepositForBurn:
+				orig = x.OriginalMessage
+			}
+			if orig != nil {
+				own := false
+				if em != nil {
+					for _, v := range em.All {
+						if bytes.Equal(v, orig) {
+							own = true
+						}
+					}
+				}
+				if !own {
+					if byModule {
+						di++
+					}
+					continue
+				}
+			}
+		}
 		if em == nil || isNew {
 			em = &Emitted{Nonce: m.Nonce, Original: raw, ByModule: byModule, Sender: m.Sender}
 			e.M.Emitted[m.Nonce] = em
